@@ -3,6 +3,8 @@ CONSTANTS Caps = {2, 3, 4, 5, 8, 13}
  MaxN = 15
  MaxTotal = 80
  DiscardRewinds = FALSE
+ MaxCreates = 2
+ CreateKeepsPointers = FALSE
 INVARIANTS NoBad Bounded Holds Ghost
 VIEW View
 CHECK_DEADLOCK FALSE
